@@ -7,7 +7,7 @@
    (Independence). *)
 From Coq Require Import ZArith List Bool Lia.
 From Mistletoe Require Import Base.Sx Base.PyStr Base.PyText Gen.GenRegex Gen.GenConfig Re.ReMatch Model.CoreTokens Model.Block Proofs.ReFirst
-     Proofs.BlockProgress Proofs.Independence Proofs.QuoteLaw Proofs.ListLaw Proofs.ListLaw2 Proofs.FenceLaw Proofs.Prose Proofs.PlainProse Proofs.ProseLines Proofs.HeadingLaw Proofs.SetextLaw Proofs.ThematicLaw Proofs.InertProse Proofs.EmphSimple Proofs.EmphSentence Spec.Fragment.
+     Proofs.BlockProgress Proofs.Independence Proofs.QuoteLaw Proofs.ListLaw Proofs.ListLaw2 Proofs.FenceLaw Proofs.Prose Proofs.PlainProse Proofs.ProseLines Proofs.HeadingLaw Proofs.SetextLaw Proofs.ThematicLaw Proofs.InertProse Proofs.EmphSimple Proofs.EmphSentence Proofs.RefSentence Proofs.LinkSentence Spec.Fragment.
 Import ListNotations.
 Local Open Scope Z_scope.
 
@@ -141,6 +141,9 @@ Fixpoint wf_b (t : ftree) : bool :=
     let line := c0 :: em_body pre ch double w post in
     ((ch =? 42) || (ch =? 95)) && emph_word w && plain_text (c0 :: pre) && plain_text post && edge_pre (c0 :: pre) && edge_post post &&
     plain_first c0 && nomatch fl_block_token_ListItem_pattern re_block_token_ListItem_pattern c0 && negb (is_space_c (last line 0))
+  | FLink c0 pre w dest post =>
+    ilink_ok (c0 :: pre) w dest post && plain_first c0 && nomatch fl_block_token_ListItem_pattern re_block_token_ListItem_pattern c0 &&
+    negb (is_space_c (last (c0 :: link_body pre w dest post) 0))
   end.
 
 (* ---- the text of the spelled forms ---- *)
@@ -267,7 +270,7 @@ Section Chain.
 
   Lemma pre_of_chain : forall t ln, is_item t = true -> wf_b t = true -> pre_of md ln t = PList ln (chain_items ln t).
   Proof.
-    induction t as [| | | mk pad ts | mk pad ts bl next IH | | | ]; intros ln Hi Hw; try discriminate.
+    induction t as [| | | mk pad ts | mk pad ts bl next IH | | | | ]; intros ln Hi Hw; try discriminate.
     - reflexivity.
     - rewrite pre_of_more. cbv zeta. cbn [wf_b] in Hw. repeat rewrite andb_true_iff in Hw. destruct Hw as [[[_ Hin] _] Hwn].
       rewrite (IH _ Hin Hwn). reflexivity.
@@ -421,6 +424,59 @@ Section Main.
     cbn [tokenize_block length dispatch_loop]. rewrite T. reflexivity.
   Qed.
 
+  (* ---- FLink: a one-line paragraph with one inline link ---- *)
+  Definition link_line (c0 : Z) (pre w dest post : str) : str := c0 :: link_body pre w dest post.
+
+  Lemma link_wf c0 pre w dest post : wf_b (FLink c0 pre w dest post) = true ->
+    ilink_ok (c0 :: pre) w dest post = true /\ plain_first c0 = true /\
+    nomatch fl_block_token_ListItem_pattern re_block_token_ListItem_pattern c0 = true /\ is_space_c (last (link_line c0 pre w dest post) 0) = false.
+  Proof.
+    cbn [wf_b]. intros H. repeat rewrite andb_true_iff in H. destruct H as [[[H1 H2] H3] H4]. apply negb_true_iff in H4. repeat split; assumption.
+  Qed.
+
+  Lemma link_parts c0 pre w dest post : ilink_ok (c0 :: pre) w dest post = true ->
+    plain_text (c0 :: pre) = true /\ plain_text w = true /\ plain_text post = true /\ forallb dest_char dest = true.
+  Proof.
+    unfold ilink_ok. intros H. repeat rewrite andb_true_iff in H. destruct H as [[[[[H1 H2] H3] _] H5] _]. repeat split; assumption.
+  Qed.
+
+  Lemma link_no c c0 pre w dest post : mem c triggers_r = true -> c <> 91 -> c <> 93 -> c <> 40 -> c <> 41 ->
+    wf_b (FLink c0 pre w dest post) = true -> mem c (link_line c0 pre w dest post) = false.
+  Proof.
+    intros Hc C1 C2 C3 C4 Hw. destruct (link_wf _ _ _ _ _ Hw) as (Hok & _). destruct (link_parts _ _ _ _ _ Hok) as (Hpre & Hpw & Hpost & Hd).
+    assert (P : forall t, plain_text t = true -> mem c t = false).
+    { intros t Ht. apply plain_no; [|exact Ht]. unfold mem, triggers_r, triggers in *. cbn [existsb] in *.
+      repeat (apply orb_true_iff in Hc; destruct Hc as [Hc|Hc]); try discriminate; rewrite Hc; cbn [orb]; rewrite ?orb_true_r; reflexivity. }
+    unfold link_line, link_body. change (c0 :: pre ++ [91] ++ w ++ [93; 40] ++ dest ++ [41] ++ post) with ((c0 :: pre) ++ [91] ++ w ++ [93; 40] ++ dest ++ [41] ++ post).
+    unfold mem. rewrite !existsb_app. fold (mem c (c0 :: pre)). fold (mem c w). fold (mem c dest). fold (mem c post).
+    rewrite (P _ Hpre), (P _ Hpw), (P _ Hpost), (dest_no c dest Hc Hd). cbn [existsb orb].
+    apply Z.eqb_neq in C1, C2, C3, C4. rewrite C1, C2, C3, C4. reflexivity.
+  Qed.
+
+  Lemma link_block_line c0 pre w dest post : wf_b (FLink c0 pre w dest post) = true -> block_line (link_line c0 pre w dest post).
+  Proof.
+    intros Hw. destruct (link_wf _ _ _ _ _ Hw) as (_ & Hfst & _ & Hlst).
+    split; [exact Hfst|]. split; [apply (link_no 124); try discriminate; [reflexivity|exact Hw]|]. split; [discriminate|exact Hlst].
+  Qed.
+
+  Lemma link_text c0 pre w dest post : text_of (spell (FLink c0 pre w dest post)) = [link_line c0 pre w dest post ++ [10]].
+  Proof. reflexivity. Qed.
+
+  Lemma link_try rec c0 pre w dest post rest ln st : wf_b (FLink c0 pre w dest post) = true -> (rest = [] \/ exists B, rest = NL :: B) ->
+    try_types types rec types (text_of (spell (FLink c0 pre w dest post)) ++ rest) ln st = Some (pre_of md ln (FLink c0 pre w dest post), 1%nat, st).
+  Proof.
+    intros Hw Hrest. rewrite link_text. cbn [app pre_of].
+    apply (try_types_para_lines types rec (link_line c0 pre w dest post) rest ln st _ _ (link_block_line _ _ _ _ _ Hw)); [|exact Hp].
+    destruct Hrest as [->|[B ->]]; [reflexivity|]. cbn [para_loop]. rewrite nl_blank. reflexivity.
+  Qed.
+
+  Lemma link_tokenize f c0 pre w dest post ln st : wf_b (FLink c0 pre w dest post) = true ->
+    tokenize_block types (S f) (text_of (spell (FLink c0 pre w dest post))) ln st = ([pre_of md ln (FLink c0 pre w dest post)], false, st).
+  Proof.
+    intros Hw. pose proof (link_try (tokenize_block types f) c0 pre w dest post [] ln st Hw (or_introl eq_refl)) as T. rewrite app_nil_r in T. rewrite link_text in *.
+    cbn [tokenize_block length dispatch_loop]. rewrite T. reflexivity.
+  Qed.
+
   Lemma cont_ok_reflect l : cont_okb l = true -> bl_cont l /\ mem 9 l = false.
   Proof.
     unfold cont_okb. intros H. repeat rewrite andb_true_iff in H. destruct H as [[H1 H2] H3]. apply block_line_b_spec in H1. apply negb_true_iff in H3.
@@ -534,7 +590,7 @@ Section Main.
   Lemma first_line_follower t : is_item t = false -> wf_b t = true ->
     exists l2 more, text_of (spell t) = l2 :: more /\ (forall p, 0 < p -> parse_continuation l2 p = None) /\ parse_marker l2 = None.
   Proof.
-    intros Hi Hw. destruct t as [c body more|ch n content|ts|mk pad ts|mk pad ts bl next|lv hc hb|rc rn|e0 epre ech edbl ew epost]; [| | |discriminate|discriminate| | |].
+    intros Hi Hw. destruct t as [c body more|ch n content|ts|mk pad ts|mk pad ts bl next|lv hc hb|rc rn|e0 epre ech edbl ew epost|l0 lpre lw ldest lpost]; [| | |discriminate|discriminate| | | |].
     - destruct (wf_para c body more Hw) as (Hw' & Hnm & _).
       destruct Hw' as (Hf1 & _ & _ & _). cbn [hd] in Hf1.
       assert (Hc : first_ok c = true).
@@ -586,6 +642,18 @@ Section Main.
       + intros p Hp0. change (em_line e0 epre ech edbl ew epost ++ [10]) with (line_of 0 e0 (em_body epre ech edbl ew epost)).
         apply parse_continuation_short; assumption.
       + unfold parse_marker, em_line. change ((e0 :: em_body epre ech edbl ew epost) ++ [10]) with (e0 :: (em_body epre ech edbl ew epost ++ [10])).
+        rewrite rmatch_first by exact Hnm. reflexivity.
+    - destruct (link_wf _ _ _ _ _ Hw) as (Hok & Hfst & Hnm & _). rewrite link_text.
+      eexists. eexists. split; [reflexivity|].
+      assert (Hc : first_ok l0 = true).
+      { apply nonspace_first_ok. unfold nonspace. change (cat_match CatSpace l0) with (is_space_c l0). rewrite (plain_first_not_space l0 Hfst). reflexivity. }
+      assert (Hb : mem 10 (link_body lpre lw ldest lpost) = false).
+      { pose proof (link_no 10 l0 lpre lw ldest lpost eq_refl ltac:(discriminate) ltac:(discriminate) ltac:(discriminate) ltac:(discriminate) Hw) as M.
+        unfold link_line, mem in M. cbn [existsb] in M. apply orb_false_iff in M as [_ M]. exact M. }
+      split.
+      + intros p Hp0. change (link_line l0 lpre lw ldest lpost ++ [10]) with (line_of 0 l0 (link_body lpre lw ldest lpost)).
+        apply parse_continuation_short; assumption.
+      + unfold parse_marker, link_line. change ((l0 :: link_body lpre lw ldest lpost) ++ [10]) with (l0 :: (link_body lpre lw ldest lpost ++ [10])).
         rewrite rmatch_first by exact Hnm. reflexivity.
   Qed.
 
@@ -676,7 +744,7 @@ Section Main.
       eexists. eexists. eexists. eexists. eexists. split; [reflexivity|]. split; [apply marker_line_cont; assumption|].
       split; [apply (parse_marker_line mk pad c0 body0 Hmk Hpad Hc0)|]. split; [exact Hth|].
       destruct (marker_first mk Hmk) as (m0 & mr & Em & Hm0). rewrite Em. eexists. eexists. split; [reflexivity|exact Hm0]. }
-    destruct t as [c body more|ch n content|ts|mk pad ts|mk pad ts bl next|lv hc hb|rc rn|e0 epre ech edbl ew epost]; try discriminate.
+    destruct t as [c body more|ch n content|ts|mk pad ts|mk pad ts bl next|lv hc hb|rc rn|e0 epre ech edbl ew epost|l0 lpre lw ldest lpost]; try discriminate.
     - cbn [wf_b] in Hw. cbn [spell marker_of]. rewrite <- (app_nil_r (item_lines mk pad _)). apply G. exact Hw.
     - cbn [wf_b] in Hw. repeat rewrite andb_true_iff in Hw. destruct Hw as [[[Hw _] _] _]. cbn [spell marker_of]. apply G.
       repeat rewrite andb_true_iff. exact Hw.
@@ -695,7 +763,7 @@ Section Main.
         read_list types (tokenize_block types (S f')) fuel (text_of (spell t) ++ tail) ln leader prev acc consumed st =
         (rev acc ++ chain_items md ln t, (consumed + length (text_of (spell t)))%nat, st_after st t).
     Proof.
-      induction t as [| | | mk pad ts | mk pad ts bl next IH | | | ]; intros Hi Hw Hd tail Htail fuel ln st leader prev acc consumed Hn Hlead Hprev; try discriminate.
+      induction t as [| | | mk pad ts | mk pad ts bl next IH | | | | ]; intros Hi Hw Hd tail Htail fuel ln st leader prev acc consumed Hn Hlead Hprev; try discriminate.
       - (* the last item *)
         cbn [wf_b] in Hw. destruct (item_parts mk pad ts Hw) as (Hmk & Hpad & Hs & Hall & c0 & body0 & rest & El & Hc0 & Hb0 & Hrest & Hlast & Hth).
         cbn [spell chain_items st_after] in *. rewrite El in *. rewrite text_item in * by exact Hmk. cbn [hd] in Hprev.
@@ -835,14 +903,14 @@ Section Main.
           rewrite text_item by exact Hmk'. cbn [app hd].
           apply (list_start_line mk pad c0 body0 Hmk' (proj1 Hpad)). apply nonspace_first_ok. exact Hc0. }
         replace l2 with (hd [] (text_of (spell t))) by (rewrite E2; reflexivity).
-        destruct t as [ | | |mk pad ts|mk pad ts bl next| | | ]; try discriminate.
+        destruct t as [ | | |mk pad ts|mk pad ts bl next| | | | ]; try discriminate.
         - cbn [wf_b] in Hw. cbn [spell]. rewrite <- (app_nil_r (item_lines mk pad _)). apply G. exact Hw.
         - cbn [wf_b] in Hw. repeat rewrite andb_true_iff in Hw. destruct Hw as [[[Hw _] _] _]. cbn [spell]. apply G.
           repeat rewrite andb_true_iff. exact Hw. }
       rewrite Ls. change (l2 :: more ++ tail) with ((l2 :: more) ++ tail). rewrite <- E2.
       assert (Hlen : (chain_len t <= S (length (text_of (spell t) ++ tail)))%nat).
       { clear -Hw. assert (G : forall t0, wf_b t0 = true -> (chain_len t0 <= S (length (text_of (spell t0))))%nat).
-        { induction t0 as [| | | | mk0 pad0 ts0 bl0 next0 IHn | | | ]; intros Hw0; cbn [chain_len]; try lia.
+        { induction t0 as [| | | | mk0 pad0 ts0 bl0 next0 IHn | | | | ]; intros Hw0; cbn [chain_len]; try lia.
           cbn [wf_b] in Hw0. repeat rewrite andb_true_iff in Hw0. destruct Hw0 as [[[Hw0 _] _] Hwn]. specialize (IHn Hwn).
           assert (Hw' : marker_okb mk0 && Nat.leb 1 pad0 && Nat.leb pad0 4 && seq_ok_b ts0 && forallb wf_b ts0 && good_b (join_blank (map spell ts0)) &&
                         negb (thematic_start (item_first_line mk0 pad0 (join_blank (map spell ts0)))) = true) by (repeat rewrite andb_true_iff; exact Hw0).
@@ -853,7 +921,7 @@ Section Main.
       rewrite (chain_read t Hi Hw Hd tail Htail (S (length (text_of (spell t) ++ tail))) ln st None None [] 0%nat Hlen I (or_introl eq_refl)).
       cbn [rev app Nat.add]. rewrite (pre_of_chain md t ln Hi Hw).
       assert (Efix : fix_last (chain_items md ln t) = chain_items md ln t).
-      { clear -Hi Hw. revert ln. induction t as [| | | mk pad ts | mk pad ts bl next IH | | | ]; intros ln; try discriminate.
+      { clear -Hi Hw. revert ln. induction t as [| | | mk pad ts | mk pad ts bl next IH | | | | ]; intros ln; try discriminate.
         - cbn [chain_items]. unfold fix_last. cbn [rev app]. f_equal. f_equal.
           destruct md; [cbn [negb andb]; apply andb_false_r|]. cbn [negb andb]. rewrite pre_seq_length. unfold nlines. apply andb_diag.
         - cbn [wf_b] in Hw. repeat rewrite andb_true_iff in Hw. destruct Hw as [[[_ Hin] _] Hwn].
@@ -896,7 +964,7 @@ Section Main.
 
   Lemma C_from f : (forall f', f = S f' -> Q f' /\ QN f') -> C f.
   Proof.
-    intros HQ t ln st Hw Hd. destruct t as [c body more|ch n content|ts|mk pad ts|mk pad ts bl next|lv hc hb|rc rn|e0 epre ech edbl ew epost].
+    intros HQ t ln st Hw Hd. destruct t as [c body more|ch n content|ts|mk pad ts|mk pad ts bl next|lv hc hb|rc rn|e0 epre ech edbl ew epost|l0 lpre lw ldest lpost].
     - split; [cbn [spell text_of map]; discriminate|]. intros B _. rewrite para_try_app by exact Hw. reflexivity.
     - split; [destruct (fence_wf ch n content Hw) as ((_ & H3) & _); rewrite fence_text by lia; discriminate|].
       intros B _. rewrite fence_try by exact Hw. reflexivity.
@@ -921,6 +989,7 @@ Section Main.
       intros B _. rewrite head_try by exact Hw. rewrite head_text by exact H1. reflexivity.
     - split; [rewrite rule_text; discriminate|]. intros B _. rewrite rule_try by exact Hw. rewrite rule_text. reflexivity.
     - split; [rewrite em_text; discriminate|]. intros B _. rewrite (em_try _ _ _ _ _ _ _ (NL :: B) ln st Hw) by (right; exists B; reflexivity). rewrite em_text. reflexivity.
+    - split; [rewrite link_text; discriminate|]. intros B _. rewrite (link_try _ _ _ _ _ _ (NL :: B) ln st Hw) by (right; exists B; reflexivity). rewrite link_text. reflexivity.
   Qed.
 
   Lemma Q_from f : P f -> C f -> Q f.
@@ -1000,7 +1069,7 @@ Section Main.
 
   Lemma P_succ f : Q f -> QN f -> P (S f).
   Proof.
-    intros HQ HQN t ln st Hw Hd. destruct t as [c body more|ch n content|ts|mk pad ts|mk pad ts bl next|lv hc hb|rc rn|e0 epre ech edbl ew epost].
+    intros HQ HQN t ln st Hw Hd. destruct t as [c body more|ch n content|ts|mk pad ts|mk pad ts bl next|lv hc hb|rc rn|e0 epre ech edbl ew epost|l0 lpre lw ldest lpost].
     - rewrite para_tokenize by exact Hw. reflexivity.
     - rewrite fence_tokenize by exact Hw. reflexivity.
     - cbn [wf_b] in Hw. repeat rewrite andb_true_iff in Hw. destruct Hw as [[Hs Hall] Hg].
@@ -1013,16 +1082,18 @@ Section Main.
     - rewrite head_tokenize by exact Hw. reflexivity.
     - rewrite rule_tokenize by exact Hw. reflexivity.
     - rewrite em_tokenize by exact Hw. reflexivity.
+    - rewrite link_tokenize by exact Hw. reflexivity.
   Qed.
 
   Lemma P_zero : P 0.
   Proof.
-    intros t ln st Hw Hd. destruct t as [c body more|ch n content|ts|mk pad ts|mk pad ts bl next|lv hc hb|rc rn|e0 epre ech edbl ew epost]; [| |cbn [depth] in Hd; lia|cbn [depth] in Hd; lia|cbn [depth] in Hd; lia| | |].
+    intros t ln st Hw Hd. destruct t as [c body more|ch n content|ts|mk pad ts|mk pad ts bl next|lv hc hb|rc rn|e0 epre ech edbl ew epost|l0 lpre lw ldest lpost]; [| |cbn [depth] in Hd; lia|cbn [depth] in Hd; lia|cbn [depth] in Hd; lia| | | |].
     - rewrite para_tokenize by exact Hw. reflexivity.
     - rewrite fence_tokenize by exact Hw. reflexivity.
     - rewrite head_tokenize by exact Hw. reflexivity.
     - rewrite rule_tokenize by exact Hw. reflexivity.
     - rewrite em_tokenize by exact Hw. reflexivity.
+    - rewrite link_tokenize by exact Hw. reflexivity.
   Qed.
 
   Theorem fragment_all : forall f, P f /\ Q f /\ QN f.
@@ -1134,6 +1205,7 @@ Section TokOf.
     | FRule c n => ThematicBreak (repeat c (S (S (S n))))
     | FEm c0 pre ch double w post =>
       Paragraph (RawText (c0 :: pre) :: (if double then Strong [ch] [RawText w] else Emphasis [ch] [RawText w]) :: raw_if post)
+    | FLink c0 pre w dest post => Paragraph (RawText (c0 :: pre) :: ilink_of w dest :: raw_if post)
     end.
   Fixpoint tok_seq (ts : list ftree) : list tok :=
     match ts with
@@ -1150,6 +1222,7 @@ Section Tokens.
   Hypothesis Hquiet : prose_spans span_types = true.
   Hypothesis Hemph : emph_spans span_types = true.
   Hypothesis Hinert : inert_spans span_types = true.
+  Hypothesis Hrefs : ref_spans span_types = true.
   Hypothesis Hfn : fn = [].       (* the trees of the fragment define no link reference, so that "[b]" in a paragraph is text *)
 
   Lemma build_para c body more ln : wf_b (FPara c body more) = true ->
@@ -1198,6 +1271,18 @@ Section Tokens.
     rewrite T. reflexivity.
   Qed.
 
+  Lemma build_link c0 pre w dest post ln : wf_b (FLink c0 pre w dest post) = true ->
+    build span_types keep fn (pre_of md ln (FLink c0 pre w dest post)) = Some (tok_of md (FLink c0 pre w dest post)).
+  Proof.
+    intros Hw. destruct (link_wf _ _ _ _ _ Hw) as (Hok & _).
+    cbn [pre_of build tok_of map concat]. rewrite app_nil_r.
+    change (c0 :: link_body pre w dest post ++ [10]) with (link_line c0 pre w dest post ++ [10]).
+    destruct (strip_block_line _ (link_block_line _ _ _ _ _ Hw)) as [S _]. rewrite S. unfold inline.
+    pose proof (link_in_sentence span_types fn (c0 :: pre) w dest post Hrefs Hok) as T.
+    replace (link_line c0 pre w dest post) with ((c0 :: pre) ++ [91] ++ w ++ [93; 40] ++ dest ++ [41] ++ post) by reflexivity.
+    rewrite T. reflexivity.
+  Qed.
+
   Lemma kids_blank ln : flat_map (fun e => match build span_types keep fn e with Some t => [t] | None => [] end) (blank_entry md ln) = blank_tok md.
   Proof. unfold blank_entry, blank_tok. destruct md; reflexivity. Qed.
 
@@ -1206,7 +1291,7 @@ Section Tokens.
   Proof.
     induction f as [|f IH].
     - intros t ln Hd Hw.
-      destruct t as [c body more|ch n content|ts|mk pad ts|mk pad ts bl next|lv hc hb|rc rn|e0 epre ech edbl ew epost]; [apply build_para; exact Hw|reflexivity|cbn [depth] in Hd; lia|cbn [depth] in Hd; lia|cbn [depth] in Hd; lia|apply build_head; exact Hw|apply build_rule; exact Hw|apply build_em; exact Hw].
+      destruct t as [c body more|ch n content|ts|mk pad ts|mk pad ts bl next|lv hc hb|rc rn|e0 epre ech edbl ew epost|l0 lpre lw ldest lpost]; [apply build_para; exact Hw|reflexivity|cbn [depth] in Hd; lia|cbn [depth] in Hd; lia|cbn [depth] in Hd; lia|apply build_head; exact Hw|apply build_rule; exact Hw|apply build_em; exact Hw|apply build_link; exact Hw].
     - assert (Kids : forall ts ln, Forall (fun t => (depth t <= f)%nat) ts -> forallb wf_b ts = true ->
                 flat_map (fun e => match build span_types keep fn e with Some t => [t] | None => [] end) (pre_seq md ln ts) = tok_seq md ts).
       { induction ts as [|t0 r IHr]; intros ln0 Hds Hws; [reflexivity|].
@@ -1214,8 +1299,8 @@ Section Tokens.
         cbn [pre_seq flat_map tok_seq]. rewrite (IH t0 ln0) by assumption. cbn [app]. f_equal.
         destruct r as [|t1 r']; [reflexivity|]. rewrite flat_map_app. rewrite IHr by assumption.
         f_equal. unfold blank_entry, blank_tok. destruct md; reflexivity. }
-      intros t. induction t as [c body more|ch n content|ts|mk pad ts|mk pad ts bl next IHn|lv hc hb|rc rn|e0 epre ech edbl ew epost]; intros ln Hd Hw;
-        [apply build_para; exact Hw|reflexivity| | | |apply build_head; exact Hw|apply build_rule; exact Hw|apply build_em; exact Hw].
+      intros t. induction t as [c body more|ch n content|ts|mk pad ts|mk pad ts bl next IHn|lv hc hb|rc rn|e0 epre ech edbl ew epost|l0 lpre lw ldest lpost]; intros ln Hd Hw;
+        [apply build_para; exact Hw|reflexivity| | | |apply build_head; exact Hw|apply build_rule; exact Hw|apply build_em; exact Hw|apply build_link; exact Hw].
       + cbn [wf_b] in Hw. repeat rewrite andb_true_iff in Hw. destruct Hw as [[_ Hall] _].
         rewrite pre_of_quote. cbn [build]. rewrite Kids; [reflexivity| |exact Hall].
         apply children_depth. cbn [depth] in Hd. exact Hd.
@@ -1249,20 +1334,20 @@ End Tokens.
 
 (* parse-after-write on the fragment, through the inline phase: the token tree is the tree the text was written from *)
 Theorem fragment_token_tree types span_types keep t f ln st :
-  fragment_config types = true -> prose_spans span_types = true -> emph_spans span_types = true -> inert_spans span_types = true ->
+  fragment_config types = true -> prose_spans span_types = true -> emph_spans span_types = true -> inert_spans span_types = true -> ref_spans span_types = true ->
   wf_b t = true -> (depth t <= f)%nat ->
   make_tokens span_types keep [] (fst (fst (tokenize_block types (S f) (text_of (spell t)) ln st))) = [tok_of false t].
 Proof.
-  intros Hc Hq He Hi Hw Hd. rewrite fragment_tree_cfg by assumption. cbn [fst]. unfold make_tokens. cbn [flat_map].
-  rewrite (build_fragment span_types keep [] false Hq He Hi eq_refl f t ln Hd Hw). reflexivity.
+  intros Hc Hq He Hi Hr Hw Hd. rewrite fragment_tree_cfg by assumption. cbn [fst]. unfold make_tokens. cbn [flat_map].
+  rewrite (build_fragment span_types keep [] false Hq He Hi Hr eq_refl f t ln Hd Hw). reflexivity.
 Qed.
 
 Theorem fragment_token_tree_markdown span_types keep t f ln st :
-  prose_spans span_types = true -> emph_spans span_types = true -> inert_spans span_types = true -> wf_b t = true -> (depth t <= f)%nat ->
+  prose_spans span_types = true -> emph_spans span_types = true -> inert_spans span_types = true -> ref_spans span_types = true -> wf_b t = true -> (depth t <= f)%nat ->
   make_tokens span_types keep [] (fst (fst (tokenize_block block_types_markdown (S f) (text_of (spell t)) ln st))) = [tok_of true t].
 Proof.
-  intros Hq He Hi Hw Hd. rewrite fragment_tree_markdown by assumption. cbn [fst]. unfold make_tokens. cbn [flat_map].
-  rewrite (build_fragment span_types keep [] true Hq He Hi eq_refl f t ln Hd Hw). reflexivity.
+  intros Hq He Hi Hr Hw Hd. rewrite fragment_tree_markdown by assumption. cbn [fst]. unfold make_tokens. cbn [flat_map].
+  rewrite (build_fragment span_types keep [] true Hq He Hi Hr eq_refl f t ln Hd Hw). reflexivity.
 Qed.
 
 (* the trees of the fragment define no link reference *)
@@ -1274,7 +1359,7 @@ Proof.
     { induction ts as [|t0 r IHr]; intros ln0 Hds; [reflexivity|]. inversion Hds; subst.
       cbn [pre_seq flat_map]. rewrite (IH t0 ln0) by assumption. cbn [app].
       destruct r as [|t1 r']; [reflexivity|]. rewrite flat_map_app, IHr by assumption. unfold blank_entry. destruct md; reflexivity. }
-    intros t. induction t as [c body more|ch n content|ts|mk pad ts|mk pad ts bl next IHn|lv hc hb|rc rn|e0 epre ech edbl ew epost]; intros ln Hd; try reflexivity.
+    intros t. induction t as [c body more|ch n content|ts|mk pad ts|mk pad ts bl next IHn|lv hc hb|rc rn|e0 epre ech edbl ew epost|l0 lpre lw ldest lpost]; intros ln Hd; try reflexivity.
     + rewrite pre_of_quote. cbn [defs_of]. apply Kids. apply children_depth. cbn [depth] in Hd. exact Hd.
     + rewrite pre_of_item. cbn [defs_of flat_map]. rewrite app_nil_r. apply Kids. apply children_depth. cbn [depth] in Hd. exact Hd.
     + cbn [depth] in Hd. rewrite pre_of_more. cbv zeta.
